@@ -66,6 +66,32 @@ G_LABEL = [(0, rf"{HEXD}{{1,16}} <[ -~]{{0,60}}>:")]
 NONINSTR = {"blank": G_BLANK, "dots": G_DOTS, "header": G_HEADER, "section": G_SECTION, "label": G_LABEL, "continuation": G_CONT}
 
 
+# finer partition of the instruction-line classes by the shape of the first token (used for the differential
+# sample validation, which is independent of the encoding of the cascade)
+FIRST_TOKEN_ALTS = {
+    "word": r"[a-z][a-z0-9]{0,14}",
+    "dotted": r"[a-z][a-z0-9]{0,6}\.[a-zA-Z0-9]{1,4}",
+    "bad": r"\(bad\)",
+    "byte": r"\.byte",
+    "braces": r"\{[a-z0-9]{1,5}\}",
+    "odd_x87": ODD1,
+}
+HINT_ALTS = {"jcc": r"j[a-z]{1,4}", "loop": r"loop[a-z]{0,3}"}
+
+
+def sample_classes():
+    out = {}
+    for k, t in FIRST_TOKEN_ALTS.items():
+        second = ODD2 if k == "odd_x87" else f"(?:{OPS}|{WORD})"
+        out[f"ops/{k}"] = HEAD + [(2, t), (0, SP), (3, second), (0, TAIL)]
+        if k != "odd_x87":
+            out[f"noops/{k}"] = HEAD + [(2, t), (0, " {0,8}")]
+    for k, t in HINT_ALTS.items():
+        out[f"hint/{k}"] = HEAD + [(2, t), (0, ",p[tn]"), (0, SP), (3, OPS), (0, TAIL)]
+    out["ops/prefixed_hint"] = HEAD + [(2, "(?:bnd|cs|ds|repz|rex\\.W)"), (0, " "), (3, f"{JCC},p[tn]"), (0, TAIL)]
+    return out
+
+
 def plain(segs):
     return "".join(t for _, t in segs)
 
